@@ -1113,6 +1113,7 @@ def _safe_verify(u, seed, rlimit, do_canary):
 
 
 BOUNDED_STANDS_IN = {
+    "C14": "SortFilter/SortNaturalFilter (std sort_by with the nil-safe comparators), UniqFilter, CompactFilter, ConcatFilter, MapFilter, WhereFilter, ReverseFilter, First/Last/Join (iterator chains over dyn ValueView), as_sequence",
     "C08": "effects across the partial boundary (assignments through RefCell, interrupts in the sandbox's own registers, shared counters), the partial stores (eager compiler), render `with`/`for` argument parsing",
     "C09": "hidden state anywhere outside the runtime (statics, caches in renderables or partial stores), Registers::default, the lazily compiled partial store; renders that fail midway",
     "C11": "value_eq / value_cmp on arrays, objects, nil, states and strings (iterator chains over dyn ValueView), construction independence of objects; Date/DateTime are not covered",
@@ -1128,6 +1129,7 @@ BOUNDED_STANDS_IN = {
     "C02": "every function reached by the battery inputs of the other properties (no panic)",
 }
 BATTERY_BOUNDS = {
+    "C14": "all orderings of up to 4 elements drawn from pools of integers with duplicates and nils, strings with duplicates and nils, all-nil, singleton and empty arrays (400 arrays) for sort/reverse/uniq/compact/concat/size/join/first/last; case-differing strings for sort_natural; all orderings of up to 4 objects from 7 (property present, absent, nil, false, duplicates) for map/where/compact/sort by property incl. stability",
     "C08": "460 caller programs x 7 partials: include and render with 4 argument forms, from outside and inside loops, reading/assigning/counting/breaking/continuing over shared names, missing and unparsable partials on executed and dead paths; against a reference interpreter of the two scoping disciplines",
     "C09": "all histories of 3 render calls over 3 templates (stateful constructs, a render failing midway inside a loop after a break and inside capture, include/render of a partial) x 2 data objects sharing one parser, and all histories of 5 calls over 2 templates x 2 data; every call compared with a freshly built parser",
     "C11": "all ordered pairs of a 42-value pool (nil, booleans, integers incl. 2^53 and the i64 bounds, floats incl. +-0, inf, NaN, strings, empty/blank, arrays and objects nested two deep incl. multi-key objects), each value built twice independently",
